@@ -205,6 +205,17 @@ func emitSpec(rng *rand.Rand) *mach.ASpec {
 		h := &mach.ANode{Act: act(), BType: "bindings"}
 		if rng.Intn(2) == 0 {
 			h.Branches = []mach.ABranch{{Target: "start"}}
+			if rng.Intn(3) == 0 {
+				// the handler's action completes (and may have emitted); the guard of its branch fails afterwards
+				h.Branches[0].Guard = []mach.Op{{Name: pickFail(rng)}}
+				// (the handler stays at the error node then, and would answer its own emissions for ever: they are
+				// addressed to somebody who is not a machine of the crew)
+				for k := range h.Act {
+					if m, is := h.Act[k].V.(map[string]interface{}); is && h.Act[k].Name == "emit" {
+						m["to"] = "ops"
+					}
+				}
+			}
 		} else {
 			// a handler that stays where it is runs again for every message the machine is presented, its own emissions
 			// included: it must not emit (or the crew feeds it for ever)
